@@ -34,7 +34,8 @@ RULE = ("parameter dictionaries of 1-7 entries over the supported value "
         "unpacked variations are saved under templates naming the unpacked "
         "parameter. "
         "Extension-less file names are also loaded by the name they were saved with. "
-        "Sets with members of mixed types. ")
+        "Sets with members of mixed types. "
+        "Texts / files are loaded twice with the first loaded object modified in between; repetition counts include [] / 0 and current_rep 0..500; file-name labels of 50-80 characters. ")
 ASSUMPTIONS = ["lists do not contain arrays (the classes' own == cannot "
                "compare those, independent of serialisation)",
                "by-value comparison: a float32 may come back as a Python float "
@@ -190,6 +191,7 @@ def canon_result(r, strict=False):
 def canon_results(sr, strict=False):
     return (canon_params(sr.params, strict),
             canon(sr.runned_reps, strict),
+            canon(getattr(sr, "current_rep", None), strict),
             tuple(sorted((nm, tuple(canon_result(r, strict) for r in sr[nm]))
                          for nm in sr.get_result_names())))
 
@@ -245,6 +247,44 @@ def roundtrip(ctx, monitor, obj, save_load, canon_fn, route, tag, strict=False):
     return y
 
 
+def independent_loads(ctx, monitor, load, original, canon_fn, route, tag):
+    """Two objects read from the same text / file are two objects: changing
+    the first one (as a user would) must not show in the second."""
+    try:
+        y1 = load()
+        c0 = canon_fn(original)
+        # use the first loaded object the way any object is used
+        if isinstance(y1, SimulationParameters):
+            for k, v in list(y1.parameters.items()):
+                if isinstance(v, list):
+                    v.append(12345)
+                elif isinstance(v, set):
+                    v.add("added-later")
+                elif isinstance(v, np.ndarray) and v.size and v.flags.writeable:
+                    v.flat[0] = v.flat[0] + 1
+            y1.add("added_later", 3)
+        else:
+            if isinstance(y1.runned_reps, list):
+                y1.runned_reps.append(777)
+            for nm in y1.get_result_names():
+                r = y1[nm][-1]
+                if r.type_code == Result.RATIOTYPE:
+                    r.update(1, 2)
+                elif r.type_code == Result.CHOICETYPE:
+                    r.update(0)
+                else:
+                    r.update(1)
+            y1.params.add("added_later", 3)
+        y2 = load()
+    except Exception as e:          # noqa: BLE001
+        ctx.ev(monitor, False, cls="%s:second-load-raised:%s" % (route, type(e).__name__),
+               detail={**tag, "exc": repr(e)})
+        return
+    c2 = canon_fn(y2)
+    ctx.ev(monitor, c2 == c0, cls="%s:second-load-sees-changes-made-to-the-first" % route,
+           detail=lambda: {**tag, "original": repr(c0)[:1200], "second_load": repr(c2)[:1200]})
+
+
 # ------------------------------------------------------------------ cases ---
 def case_params(ctx, rng, idx):
     tag = {}
@@ -264,6 +304,17 @@ def case_params(ctx, rng, idx):
 
     roundtrip(ctx, "params-roundtrip", p, via_json, canon_params, "json", tag)
     roundtrip(ctx, "params-roundtrip", p, via_pickle, canon_params, "pickle", tag, strict=True)
+    if idx % 3 == 0:
+        try:
+            text = p.to_json()
+        except Exception:           # noqa: BLE001 - judged by the round trip above
+            text = None
+        if text is not None:
+            independent_loads(ctx, "params-roundtrip", lambda: SimulationParameters.from_json(text),
+                              p, canon_params, "json", tag)
+            independent_loads(ctx, "params-roundtrip",
+                              lambda: SimulationParameters.load_from_pickled_file(fn),
+                              p, canon_params, "pickle", tag)
     # json text itself is deterministic
     okc, t1 = ctx.call("params-roundtrip", p.to_json, cls="json:raised", detail=tag)
     if okc:
@@ -360,6 +411,16 @@ def gen_results(rng, tag):
             sr.append_result(gen_result(rng, "res%d" % i, t, acc, int(rng.integers(0, 6))))
     sr.runned_reps = [int(x) for x in rng.integers(1, 1000, size=min(nvar, 4))] \
         if rng.random() < 0.8 else int(rng.integers(1, 1000))
+    edge = rng.random()
+    if edge < 0.12:
+        sr.runned_reps = []                 # nothing was run yet
+    elif edge < 0.2:
+        sr.runned_reps = 0
+    elif edge < 0.3:
+        sr.runned_reps = [0] * min(nvar, 4)
+    if rng.random() < 0.4:
+        # partial results carry the number of repetitions done so far -- 0 included
+        sr.current_rep = int(rng.choice([0, 0, 1, 499, 500]))
     tag["result_types"] = types
     return sr
 
@@ -400,6 +461,15 @@ def case_results(ctx, rng, idx):
     strict = route in ("pickle-file", "noext-file") or \
         (route == "template-file" and idx % 2 == 0)
     y = roundtrip(ctx, "results-roundtrip", sr, save_load, canon_results, route, tag, strict)
+    if y is not None and idx % 3 == 0:
+        if route == "json-string":
+            text = sr.to_json()
+            independent_loads(ctx, "results-roundtrip", lambda: SimulationResults.from_json(text),
+                              sr, canon_results, route, tag)
+        elif "used" in state:
+            independent_loads(ctx, "results-roundtrip",
+                              lambda: SimulationResults.load_from_file(state["used"]),
+                              sr, canon_results, route, tag)
     if y is not None and "used" in state:
         want_tmpl = state["template"] + ("" if os.path.splitext(state["template"])[1]
                                          else ".pickle")
@@ -424,11 +494,15 @@ def case_results(ctx, rng, idx):
 def case_filename(ctx, rng, idx):
     """Template -> file name is deterministic and injective over distinct
     scalar values of the same type."""
-    kind = ["pyint", "pyfloat", "str", "npint", "npfloat", "tinyfloat", "closefloat"][idx % 7]
+    kind = ["pyint", "pyfloat", "str", "npint", "npfloat", "tinyfloat", "closefloat",
+            "longstr"][idx % 8]
     vals = []
     seen = set()
+    stem = "scenario-" + "".join(str(rng.choice(list("abcdefgh_-."))) for _ in range(int(rng.integers(40, 70))))
     for _ in range(12):
-        if kind == "closefloat":      # neighbours that agree in 12-15 significant digits
+        if kind == "longstr":          # descriptive labels that differ only near their end
+            v = stem + "-" + str(int(rng.integers(0, 40)))
+        elif kind == "closefloat":      # neighbours that agree in 12-15 significant digits
             base = float(rng.choice([0.3, 1.0, 2.5e3, 7e-4]))
             v = [base, float(np.nextafter(base, 10 * base)), base * (1 + 1e-13),
                  base * (1 + 3e-15), 0.1 + 0.2 if base == 0.3 else base * (1 - 1e-14)][
